@@ -11,6 +11,12 @@ CLAIMS = {
         note=TB + " Server-method handlers (argument parsing in network/server.rs) are outside Kani's reach and not part of this claim."),
 }
 
+CLAIMS["C20"] = dict(
+    engine="K",
+    technique="bounded model checking (Kani/CBMC) of the real parser/serializer: totality, round trip, prefix lemma, allocation obligation",
+    text="Solver-decided, bounded: (1) totality of parse_frame per type byte over arbitrary bytes (6-7 bytes, every length): frame with 0<consumed<=len, need-more, or error, no panic; (2) round trip parse(serialize(f))==(f,len) for every leaf frame family with symbolic payload bytes (line types without CR/LF, bulk with any bytes, nil forms, integer literals); (3) the prefix lemma of RespParser::parse for every split point, from which chunk independence follows by induction over chunks; (4) aggregate parsers never reserve more elements than bytes received.",
+    note=TB + " Outside: doubles (dec2flt/Ryu not tractable), symbolic integers through std Display/FromStr (literal table instead), frames nested inside aggregates for round trip/chunking (drop-glue recursion of RespFrame unrolls beyond memory), payloads > 3 bytes.")
+
 NOT_APPLICABLE = {}
 
 NOTES = ("Solver-based checking of the real code. Engine K = Kani harness overlays appended to a scratch copy of /repo's current working tree "
